@@ -2,13 +2,14 @@ import Bng.Model.TeardownMonitor
 import Bng.Spec.C16Teardown
 /-
   Refinement proof for component `teardown`: the per-session clauses of the monitor (`TeardownMon.perSession`:
-  double-stop, double-cleanup, double-padt, residue, missing-stop, stop-unstarted, stop-before-end) never speak on the
-  model's own observations, for EVERY history — only the recorded finding KF-pppoe-no-acct-start does.
+  double-stop, double-cleanup, double-padt, residue, missing-stop, stop-unstarted, stop-before-end, ebpf-residue) never
+  speak on the model's own observations, for EVERY history (failing eBPF-map callback included) — only the recorded
+  findings do: KF-pppoe-no-acct-start, and KF-pppoe-teardown-ebpf-noretry for a session whose callback failed.
   (The `not-terminated` clauses of `afterTermination` are validated by the runs only.)
 -/
 namespace Bng.Proof.TeardownMonitor
 open Bng Bng.Teardown Bng.TeardownMon AMap
-open Bng.Spec.C16Teardown (Inv PInv cl inv_step pinv_step inv_init step_radius)
+open Bng.Spec.C16Teardown (Inv PInv cl inv_step pinv_step inv_init step_radius count_bump)
 
 /-! ### reading a counter back from the observation -/
 
@@ -133,6 +134,7 @@ theorem step_attr (s : TD) (op : Op) (k : Nat)
     simp only [step]; split
     · rw [cleanup_attr]; rfl
     · rfl
+  | fault m => rfl
 
 
 /-! ### how the session objects evolve -/
@@ -240,11 +242,25 @@ theorem keep_step (s : TD) (op : Op) (h2 : ∀ n, op ≠ .authFail n) (hacc : ac
     simp only [step]; split
     · exact keep_trans (keep_of_objs (s' := { s with parked := AMap.erase s.parked tag }) rfl) (keep_cleanup _ _)
     · exact keep_refl s
+  | fault m => exact keep_of_objs rfl
 
 
 /-! ### the per-session clauses are silent -/
 
-def Quiet (vs : List Verdict) : Prop := ∀ v ∈ vs, v.2.1 = "KF-pppoe-no-acct-start"
+/-- nothing but the recorded findings -/
+def Quiet (vs : List Verdict) : Prop :=
+  ∀ v ∈ vs, v.2.1 = "KF-pppoe-no-acct-start" ∨ v.2.1 = "KF-pppoe-teardown-ebpf-noretry"
+
+/-- the same, and the second finding only where the eBPF-map callback has failed for some session -/
+def QuietAt (s : TD) (vs : List Verdict) : Prop :=
+  ∀ v ∈ vs, v.2.1 = "KF-pppoe-no-acct-start" ∨
+    (v.2.1 = "KF-pppoe-teardown-ebpf-noretry" ∧ ∃ n, count s.efail n = 1)
+
+theorem QuietAt.quiet {s : TD} {vs : List Verdict} (h : QuietAt s vs) : Quiet vs := by
+  intro v hv
+  rcases h v hv with h1 | ⟨h2, _⟩
+  · exact Or.inl h1
+  · exact Or.inr h2
 
 theorem live_mem {s : TD} {n : Nat} (h : n ∈ (obsOf s false).live) : ∃ id, lookup s.live id = some n := by
   simp only [obsOf, List.mem_filterMap] at h
@@ -253,32 +269,51 @@ theorem live_mem {s : TD} {n : Nat} (h : n ∈ (obsOf s false).live) : ∃ id, l
 
 theorem perSession_quiet {s : TD} (hI : Inv s) (hP : PInv s) (k : Known) (o : Obj) (p : Bool)
     (ho : lookup s.objs k.name = some o) (ha : o.authed = k.authed) :
-    Quiet (perSession s.radius k (obsOf s p)) := by
+    QuietAt s (perSession s.radius k (obsOf s p)) := by
   have est : getCount (obsOf s p).stops k.name = count s.stops k.name := get_countsOf _ _
   have eeb : getCount (obsOf s p).ebpf k.name = count s.ebpf k.name := get_countsOf _ _
+  have eef : getCount (obsOf s p).efail k.name = count s.efail k.name := get_countsOf _ _
   have epa : getCount (obsOf s p).padt k.name = count s.padt k.name := get_countsOf _ _
+  have efp : (obsOf s p).fp = s.fp := rfl
   have hpadt : count s.padt k.name ≤ 1 := by rw [hP k.name]; split <;> omega
+  have hp0 : ¬ count s.padt k.name > 1 := by omega
   intro v hv
   unfold perSession at hv
-  simp only [est, eeb, epa] at hv
+  simp only [est, eeb, eef, epa, efp] at hv
   cases ht : o.tornDown with
   | false =>
     obtain ⟨h1, h2⟩ := hI.fresh k.name o ho ht
-    rw [h1, h2] at hv
-    have hp0 : ¬ count s.padt k.name > 1 := by omega
+    obtain ⟨h3, _⟩ := hI.freshFp k.name o ho ht
+    rw [h1, h2, h3] at hv
     simp [hp0] at hv
   | true =>
     obtain ⟨h2, h1, hheld, hlive⟩ := hI.done k.name o ho ht
-    rw [h1, h2, ha] at hv
-    have hp0 : ¬ count s.padt k.name > 1 := by omega
+    obtain ⟨hfp0, hfp1⟩ := hI.doneFp k.name o ho ht
     have hh : (obsOf s p).held.contains k.name = false := by
       rw [Bool.eq_false_iff]; intro hc; rw [List.contains_iff_mem] at hc; exact hheld hc
     have hl : (obsOf s p).live.contains k.name = false := by
       rw [Bool.eq_false_iff]; intro hc; rw [List.contains_iff_mem] at hc
       obtain ⟨id, hid⟩ := live_mem (s := s) hc
       exact hlive id hid
-    simp only [hp0, hh, hl] at hv
-    cases hra : (s.radius && k.authed) <;> simp [hra] at hv <;> first | exact hv.elim | (rcases hv with hv | hv <;> simp_all) | simp_all
+    have hcases : (count s.efail k.name = 0 ∧ count s.ebpf k.name = 1) ∨
+        (count s.efail k.name = 1 ∧ count s.ebpf k.name = 0) := by omega
+    rcases hcases with ⟨hef, heb⟩ | ⟨hef, heb⟩
+    · -- the callback worked: the entry is gone
+      have hnfp : s.fp.contains k.name = false := by
+        rw [Bool.eq_false_iff]; intro hc; rw [List.contains_iff_mem] at hc; exact hfp0 hef hc
+      rw [h1, heb, hef, ha] at hv
+      simp only [hp0, hh, hl, hnfp] at hv
+      cases hra : (s.radius && k.authed) <;> cases hkt : k.torn <;> simp [hra, hkt] at hv <;>
+        (subst hv; exact Or.inl rfl)
+    · -- the callback failed: the entry is still there, and that is the recorded finding
+      have hinfp : s.fp.contains k.name = true := by
+        rw [List.contains_iff_mem]; exact hfp1 hef
+      rw [h1, heb, hef, ha] at hv
+      simp only [hp0, hh, hl, hinfp] at hv
+      cases hra : (s.radius && k.authed) <;> cases hkt : k.torn <;> simp [hra, hkt] at hv <;>
+        first
+        | (subst hv; exact Or.inr ⟨rfl, k.name, hef⟩)
+        | (rcases hv with hv | hv <;> subst hv <;> first | exact Or.inl rfl | exact Or.inr ⟨rfl, k.name, hef⟩)
 
 
 /-! ### one step, every history -/
@@ -345,6 +380,7 @@ theorem pre_of_step {s : TD} {mn : Mon} (hR : Rel s mn) (op : Op) (hacc : accept
   | termAll => exact old _ (keep_step s _ (by intro n' e; cases e) hacc)
   | tpark t n => exact old _ (keep_step s _ (by intro n' e; cases e) hacc)
   | tresume t => exact old _ (keep_step s _ (by intro n' e; cases e) hacc)
+  | fault m => exact old _ (keep_step s _ (by intro n' e; cases e) hacc)
 
 theorem note_radius (mn : Mon) (op : Op) : (note mn op).radius = mn.radius := by
   cases op <;> rfl
@@ -352,7 +388,7 @@ theorem note_radius (mn : Mon) (op : Op) : (note mn op).radius = mn.radius := by
 theorem step_ok {s : TD} {mn : Mon} (hI : Inv s) (hP : PInv s) (hR : Rel s mn) (op : Op)
     (hacc : accepted s op = true) :
     Rel (step s op) (monitorCore mn op (obsOf (step s op) (parkedBy s (step s op) op))).1 ∧
-    Quiet ((note mn op).objs.flatMap fun o =>
+    QuietAt (step s op) ((note mn op).objs.flatMap fun o =>
       perSession (note mn op).radius o (obsOf (step s op) (parkedBy s (step s op) op))) := by
   have hI' := inv_step hI op
   have hP' := pinv_step hP op
@@ -366,20 +402,23 @@ theorem step_ok {s : TD} {mn : Mon} (hI : Inv s) (hP : PInv s) (hR : Rel s mn) (
       exact hrad
     · intro k' hk'
       have hk'' : k' ∈ (note mn op).objs.map fun (o : Known) =>
-          if getCount (obsOf (step s op) p).ebpf o.name ≥ 1 then { o with torn := true } else o := hk'
+          if getCount (obsOf (step s op) p).ebpf o.name + getCount (obsOf (step s op) p).efail o.name ≥ 1
+            then { o with torn := true } else o := hk'
       obtain ⟨k, hkm, rfl⟩ := List.mem_map.mp hk''
       obtain ⟨o', ho', ha', ht'⟩ := hpre k hkm
       have eeb : getCount (obsOf (step s op) p).ebpf k.name = count (step s op).ebpf k.name := get_countsOf _ _
-      rw [eeb]
+      have eef : getCount (obsOf (step s op) p).efail k.name = count (step s op).efail k.name := get_countsOf _ _
+      rw [eeb, eef]
       cases hto : o'.tornDown with
       | true =>
         obtain ⟨h2, _, _, _⟩ := hI'.done k.name o' ho' hto
-        have : count (step s op).ebpf k.name ≥ 1 := by omega
+        have : count (step s op).ebpf k.name + count (step s op).efail k.name ≥ 1 := by omega
         simp only [this, if_true]
         exact ⟨o', ho', ha', hto⟩
       | false =>
         obtain ⟨_, h2⟩ := hI'.fresh k.name o' ho' hto
-        have : ¬ count (step s op).ebpf k.name ≥ 1 := by omega
+        obtain ⟨h3, _⟩ := hI'.freshFp k.name o' ho' hto
+        have : ¬ count (step s op).ebpf k.name + count (step s op).efail k.name ≥ 1 := by omega
         simp only [this, if_false]
         refine ⟨o', ho', ha', ?_⟩
         cases hkt : k.torn with
@@ -402,10 +441,107 @@ theorem runPer_quiet : ∀ (ops : List Op) {s : TD} {mn : Mon}, Inv s → PInv s
       intro v hv
       rw [List.mem_append] at hv
       rcases hv with hv | hv
-      · exact hQ v hv
+      · exact hQ.quiet v hv
       · exact runPer_quiet rest (inv_step hI op) (pinv_step hP op) hR' v hv
     · simp only [hacc, Bool.false_eq_true, if_false]
       exact runPer_quiet rest hI hP hR
+
+/-! ### histories in which the eBPF-map callback is never made to fail -/
+
+/-- the callback works and has never failed -/
+def NoFail (s : TD) : Prop := s.fault = .off ∧ ∀ n, count s.efail n = 0
+
+theorem removeSession_efail' (s : TD) (id : Nat) : (removeSession s id).efail = s.efail := by
+  unfold removeSession; split <;> rfl
+theorem removeSession_fault' (s : TD) (id : Nat) : (removeSession s id).fault = s.fault := by
+  unfold removeSession; split <;> rfl
+
+theorem nofail_cleanup {s : TD} (h : NoFail s) (n : Nat) : NoFail (cleanup s n) := by
+  unfold cleanup
+  split
+  · exact h
+  · split
+    · exact h
+    · obtain ⟨h1, h2⟩ := h
+      refine ⟨?_, ?_⟩
+      · rw [removeSession_fault']; show s.fault.next = Fault.off; rw [h1]; rfl
+      · intro k; rw [removeSession_efail']
+        show count (if (s.fault == Fault.off) = true then s.efail else bump s.efail n) k = 0
+        rw [h1]; exact h2 k
+
+theorem nofail_terminate {s : TD} (h : NoFail s) (n : Nat) : NoFail (terminate s n) := by
+  unfold terminate
+  split
+  · split
+    · exact h
+    · exact nofail_cleanup (s := claimPadt s n _) h n
+  · exact h
+
+theorem nofail_foldl (l : List (Nat × Nat)) : ∀ {s : TD}, NoFail s → NoFail (l.foldl (fun st p => terminate st p.2) s) := by
+  induction l with
+  | nil => intro s h; exact h
+  | cons p rest ih => intro s h; exact ih (nofail_terminate h p.2)
+
+theorem nofail_step {s : TD} (h : NoFail s) (op : Op) (hop : ∀ m, op ≠ .fault m) : NoFail (step s op) := by
+  cases op with
+  | fault m => exact absurd rfl (hop m)
+  | mk n m a i => simp only [step, mk]; split <;> exact h
+  | padt n m =>
+    simp only [step]; split
+    · split
+      · exact nofail_cleanup h n
+      · exact h
+    · exact h
+  | term n => simp only [step]; split
+              · exact nofail_terminate h n
+              · exact h
+  | termId id => simp only [step]; split
+                 · exact nofail_terminate h _
+                 · exact h
+  | termMac m =>
+    simp only [step]; split
+    · split
+      · exact nofail_terminate h _
+      · exact h
+    · exact h
+  | termUser u => exact nofail_foldl _ h
+  | termAll => exact nofail_foldl _ h
+  | authFail n =>
+    simp only [step]; split
+    · split <;> exact h
+    · exact h
+  | tpark tag n =>
+    simp only [step]; split
+    · exact h
+    · split
+      · split <;> exact h
+      · exact h
+  | tresume tag =>
+    simp only [step]; split
+    · exact nofail_cleanup (s := { s with parked := AMap.erase s.parked tag }) h _
+    · exact h
+
+/-- without a failing callback the only verdict is KF-pppoe-no-acct-start -/
+theorem runPer_quiet_nofail : ∀ (ops : List Op) {s : TD} {mn : Mon}, Inv s → PInv s → Rel s mn → NoFail s →
+    (∀ op ∈ ops, ∀ m, op ≠ .fault m) → ∀ v ∈ runPer s mn ops, v.2.1 = "KF-pppoe-no-acct-start"
+  | [], _, _, _, _, _, _, _ => by intro v hv; simp [runPer] at hv
+  | op :: rest, s, mn, hI, hP, hR, hN, hops => by
+    unfold runPer
+    have hop : ∀ m, op ≠ .fault m := hops op List.mem_cons_self
+    have hrest : ∀ op' ∈ rest, ∀ m, op' ≠ .fault m := fun op' h => hops op' (List.mem_cons_of_mem _ h)
+    by_cases hacc : accepted s op = true
+    · simp only [hacc, if_true]
+      obtain ⟨hR', hQ⟩ := step_ok hI hP hR op hacc
+      have hN' := nofail_step hN op hop
+      intro v hv
+      rw [List.mem_append] at hv
+      rcases hv with hv | hv
+      · rcases hQ v hv with h1 | ⟨_, n, hn⟩
+        · exact h1
+        · rw [hN'.2 n] at hn; cases hn
+      · exact runPer_quiet_nofail rest (inv_step hI op) (pinv_step hP op) hR' hN' hrest v hv
+    · simp only [hacc, Bool.false_eq_true, if_false]
+      exact runPer_quiet_nofail rest hI hP hR hN hrest
 
 theorem Rel_init (r : Bool) : Rel (init r) { radius := r } :=
   ⟨rfl, by intro k hk; simp at hk⟩
